@@ -537,9 +537,13 @@ func evalC12(c *engine.Case) engine.Verdict {
 		// Redefine was given, never in the same option list: no supplied value
 		// shadows another one here, all of them count as candidates)
 		unique := true
-		noInputs := *sc
-		noInputs.Inputs = nil
-		srcs := engine.AllSourceLabels(&noInputs)
+		var srcs []engine.Label
+		for i := range sc.Convs {
+			srcs = append(srcs, sc.Convs[i].Out...)
+		}
+		for _, gc := range engine.GeneratedConvs(sc) {
+			srcs = append(srcs, gc.Out...)
+		}
 		for _, in := range sc.Inputs {
 			l := in.L
 			l.Dyn = l.Type
